@@ -250,6 +250,18 @@ def pair_event_live(ns, tid, seq, model, I, driver, k, rng):
 
     def to_scaled():
         cur = model
+        # first, edits the capacity check must refuse (a base RAM consumption above what an instance offers): a refused edit
+        # changes nothing, so the driver's effect afterwards must be the same
+        for v in sorted(I["sv"]):
+            if rng.random() < 0.5:
+                over = ("input", v, "base_ram_consumption", [(I["sv"][v]["ram"] * I["sv"][v]["util"] // 100 + 10) * 100, "MB"])
+                try:
+                    efx.apply_edit_live(ns, cur, live, over)
+                except Exception:   # noqa: refused, as it must be
+                    SKIPPED["refused_before_scaling"] = SKIPPED.get("refused_before_scaling", 0) + 1
+                else:               # accepted after all: put the model's value back
+                    efx.apply_edit_live(ns, efx.apply_edit_abstract(cur, over), live,
+                                        ("input", v, "base_ram_consumption", list(cur[v]["inp"]["base_ram_consumption"])))
         for obj, attr in ch:
             e = ("opt", obj, "starts", [m2[obj]["opt"]["starts"], m2[obj]["opt"]["start"]]) \
                 if attr == "hourly_usage_journey_starts" else ("input", obj, attr, m2[obj]["inp"][attr])
